@@ -49,7 +49,7 @@ SPEC = {
             "disconnect/down thresholds, busy, paused, add/remove limit, snapshot and pending-peer counts around their "
             "limits, capacity/free space around the low-space ratio, region count around 30, zone/rack/host labels, "
             "engine/specialUse/exclusive labels; options: max-replicas 1-5, 0-3 location labels, isolation level, "
-            "low-space ratio, limits, reject-leader property, feature switches, joint consensus on/off; one region "
+            "low-space ratio, limits, reject-leader property (0-3 entries, also several on one key), feature switches, joint consensus on/off; one region "
             "of 1-6 peers with learners, leader, down and pending lists; 0-4 placement rules) + `filters` (every "
             "filter's verdict on every store) + `check replica` + `check ctl` (CheckerController.CheckRegion) + `check rule` "
             "+ `check ctl` with placement rules on, sometimes repeated after degrading a "
